@@ -10,6 +10,9 @@ notests = '--no-tests' in sys.argv
 tier = 'thorough' if '--thorough' in sys.argv else 'quick'
 meta = json.load(open(os.path.join(d, 'meta.json')))
 pid = meta['property']
+for i, a in enumerate(sys.argv):
+    if a == '--prop':
+        pid = sys.argv[i + 1]
 wt = tempfile.mkdtemp(prefix='seedwt_%s_' % pid, dir='/tmp')
 os.rmdir(wt)
 
